@@ -173,9 +173,15 @@ func onlyWritable(cs *Case) {
 func C08(run *Run) {
 	ctx := context.Background()
 	if run.Replay != "" {
+		if replayKind(run.Replay) == "reduce" {
+			reducerConformance(run)
+			return
+		}
 		replayCore(run)
 		return
 	}
+	// what may be cached at all: definitive results only, whatever the completion order (spec/reduce)
+	reducerConformance(run)
 	r := rand.New(rand.NewSource(run.Seed))
 	// reads complete after small pseudo-random delays, so that the order in which
 	// concurrent sub-problems finish (and what gets cached first) varies between passes
